@@ -234,8 +234,11 @@ def check(cases, want_spec=True):
             disagreements.append({"stream": "isa", "case": rcase, "model": ae[:4000], "impl": real_line[:4000]})
         # (c) WF monitor
         if exc is not None:
-            violations.append({"property": "C02", "stream": "isa", "case": rcase, "sig": cls + ":exception",
-                               "what": "internal error {} executing a valid instruction on a well-formed machine".format(exc)})
+            # an instruction that raises has neither kept the machine going (C02) nor had its architected effect (C01)
+            for pid in ("C02", "C01"):
+                violations.append({"property": pid, "stream": "isa", "case": rcase, "sig": cls + ":exception",
+                                   "what": "internal error {} executing the valid instruction {}{} on a well-formed machine".format(
+                                       exc, cls, tuple(case["args"]))})
             continue
         w = wf_violation(vm)
         if w:
